@@ -136,7 +136,7 @@ impl RoaringBitmap {
     #[verifier::external_body]
     pub fn new() -> (r: Self) ensures r@ == Set::<u32>::empty() { unimplemented!() }
     #[verifier::external_body]
-    pub fn len(&self) -> (r: u64) ensures r == self@.len() { unimplemented!() }
+    pub fn len(&self) -> (r: u64) ensures r == self@.len(), r <= 0x1_0000_0000 { unimplemented!() }
     #[verifier::external_body]
     pub fn contains(&self, x: u32) -> (r: bool) ensures r == self@.contains(x) { unimplemented!() }
     #[verifier::external_body]
